@@ -26,6 +26,7 @@ from .values import (
     Ptr,
     Seq,
     Str,
+    SuperV,
     Top,
     TupleV,
     Union,
@@ -36,6 +37,7 @@ from .values import (
     mk_sym,
     short,
     subst_val,
+    sym_has_star,
 )
 
 MAX_DEPTH = 14
@@ -133,7 +135,7 @@ class ExprMixin:
             if self.number_locals and isinstance(v, Num) and v.sym is None and v.const is None:
                 # value numbering on first read of a joined (sym-less) local
                 fr0 = self.frames.get(key[0])
-                v = replace(v, sym=("opq", fr0.label if fr0 else "?", e.id, tuple(l.token for l in self.loops)))
+                v = replace(v, sym=("opq", fr0.label if fr0 else "?", e.id, tuple(l.token for l in self.loops), self.site_id("opq-read", e)))
                 state.vars[key] = v
             return v
         fr = self.stack[-1]
@@ -181,6 +183,19 @@ class ExprMixin:
         self.event("global-read", node, module=mi.name, name=gname, val=v)
         return v
 
+    def class_level_attr(self, ci, attr: str, node, state: State) -> Optional[Val]:
+        """Non-method class attribute found through the MRO: a value stored at class creation / by a class-attribute
+        write, or the class body's (or module-level late) binding. None when absent."""
+        for c in ci.mro:
+            v = self.class_store.get((c.fq, attr))
+            if v is not None:
+                self.event("class-attr-read", node, cls=c, attr=attr)
+                return v
+            if attr in c.class_attrs:
+                self.event("class-attr-read", node, cls=c, attr=attr)
+                return self.class_attr_value(c, attr, c.class_attrs[attr], node, state)
+        return None
+
     def class_attr_value(self, ci, attr: str, expr: ast.expr, node, state: State) -> Val:
         """Class attributes are evaluated once (class creation time) and shared by all instances and calls."""
         key = ("class:" + ci.fq, attr)
@@ -227,19 +242,32 @@ class ExprMixin:
 
     def eval_List(self, e, state):
         items = []
+        ptr = None  # once a starred element of unknown length is met, the display is a list being extended
         for x in e.elts:
             if isinstance(x, ast.Starred):
                 sv = self.eval(x.value, state)
+                if state.bottom:
+                    return Bottom()
                 sq = self.to_seq(sv, state, x)
-                if sq is not None and sq.fixed is not None:
-                    items.extend(sq.fixed)
-                else:
-                    self.note_undecided("starred element of unknown length in list display", e)
+                if sq is None:
+                    self.note_undecided("starred element that is not a sequence in list display", e)
                     return Top("starred")
+                if ptr is None and sq.fixed is not None:
+                    items.extend(sq.fixed)
+                    continue
+                if ptr is None:
+                    ptr = self.new_list(state, items, e)
+                self.bi.list_extend(state, ptr, sv, x)
             else:
-                items.append(self.eval(x, state))
+                v = self.eval(x, state)
+                if ptr is None:
+                    items.append(v)
+                else:
+                    self.bi.list_extend(state, ptr, TupleV((v,)), x)
         if state.bottom:
             return Bottom()
+        if ptr is not None:
+            return ptr
         return self.new_list(state, items, e)
 
     def new_list(self, state: State, items: List[Val], node, tag="list") -> Ptr:
@@ -575,10 +603,9 @@ class ExprMixin:
                     if m.kind == "property":
                         return self.call_function(FuncV(fi=m, node=m.node, self_val=obj, module=m.module), [], {}, node, state)
                     return FuncV(fi=m, node=m.node, self_val=obj, module=m.module)
-                ca = o.cls.lookup_class_attr(attr)
-                if ca is not None:
-                    self.event("class-attr-read", node, cls=ca[0], attr=attr)
-                    return self.class_attr_value(ca[0], attr, ca[1], node, state)
+                cv = self.class_level_attr(o.cls, attr, node, state)
+                if cv is not None:
+                    return cv
                 self.event("missing-attr", node, cls=o.cls, attr=attr)
                 self.do_raise(state, "AttributeError", node, implicit=True, mro=("AttributeError", "Exception"))
                 return Bottom()
@@ -587,6 +614,33 @@ class ExprMixin:
             if isinstance(o, ExtInst):
                 return ExtV(qual=f"{o.qual}.{attr}", bound=obj)
             return Top("attr of unknown object")
+        if isinstance(obj, SuperV):
+            inst = obj.self_val
+            dyn = None
+            if isinstance(inst, ClassV):
+                dyn = inst.ci
+            elif isinstance(inst, Ptr):
+                d = self.deref(state, inst)
+                if d is not None and isinstance(d[0], InstObj):
+                    dyn = d[0].cls
+            if dyn is None or obj.after not in dyn.mro:
+                self.note_undecided("super() on a receiver of unknown class", node)
+                return Top("super")
+            for c in dyn.mro[dyn.mro.index(obj.after) + 1 :]:
+                m = c.methods.get(attr)
+                if m is not None:
+                    if m.kind == "staticmethod":
+                        return FuncV(fi=m, node=m.node, module=m.module)
+                    if m.kind == "classmethod" or (isinstance(inst, ClassV) and attr in ("__init_subclass__", "__class_getitem__")):
+                        return FuncV(fi=m, node=m.node, self_val=inst if isinstance(inst, ClassV) else ClassV(ci=dyn), module=m.module)
+                    if m.kind == "property":
+                        return self.call_function(FuncV(fi=m, node=m.node, self_val=inst, module=m.module), [], {}, node, state)
+                    if isinstance(inst, ClassV):
+                        return FuncV(fi=m, node=m.node, module=m.module)
+                    return FuncV(fi=m, node=m.node, self_val=inst, module=m.module)
+                if attr in c.class_attrs:
+                    return self.class_attr_value(c, attr, c.class_attrs[attr], node, state)
+            return ExtV(qual=f"object.{attr}", bound=inst)
         if isinstance(obj, ClassV):
             if attr == "__name__":
                 return Str(obj.ci.name if obj.ci else obj.ext.split(".")[-1])
@@ -596,10 +650,13 @@ class ExprMixin:
                     if m.kind == "classmethod":
                         return FuncV(fi=m, node=m.node, self_val=obj, module=m.module)
                     return FuncV(fi=m, node=m.node, module=m.module)
-                ca = obj.ci.lookup_class_attr(attr)
-                if ca is not None:
-                    self.event("class-attr-read", node, cls=ca[0], attr=attr)
-                    return self.class_attr_value(ca[0], attr, ca[1], node, state)
+                cv = self.class_level_attr(obj.ci, attr, node, state)
+                if cv is not None:
+                    return cv
+                if attr == "__bases__":
+                    return TupleV(tuple(ClassV(ci=b) for b in obj.ci.bases) + tuple(ClassV(ext=x) for x in obj.ci.ext_bases))
+                if attr == "__mro__":
+                    return TupleV(tuple(ClassV(ci=b) for b in obj.ci.mro) + tuple(ClassV(ext=x) for x in obj.ci.ext_ancestors()) + (ClassV(ext="builtin.object"),))
                 self.do_raise(state, "AttributeError", node, implicit=True, mro=("AttributeError", "Exception"))
                 return Bottom()
             return ExtV(qual=f"{obj.ext}.{attr}")
@@ -647,6 +704,16 @@ class ExprMixin:
                 self.event("write", node, origin=c.origin, field=attr, loc=obj.loc, wkind="attr-on-container", ptr=obj, val=v)
                 return
         if isinstance(obj, ClassV):
+            if obj.ci is not None:
+                key = (obj.ci.fq, attr)
+                if self.class_init_phase:
+                    self.class_store[key] = v  # class creation (__init_subclass__): not an effect of an operation
+                    return
+                old = self.class_store.get(key)
+                if old is None:
+                    ca = obj.ci.class_attrs.get(attr)
+                    old = self.class_attr_value(obj.ci, attr, ca, node, state) if ca is not None else None
+                self.class_store[key] = v if old is None else join_val(old, v)  # flow-insensitive: weak update
             self.event("write", node, origin="class", field=attr, loc=str(obj.ci.fq if obj.ci else obj.ext), wkind="class-attr", ptr=None, val=v)
             state.effects = state.effects | {("class", attr)}
             return
@@ -779,7 +846,7 @@ class ExprMixin:
                 v = subst_val(seq.elem, {seq.kvar: it})
                 if seq.witness is not None and it == STAR:
                     v = join_val(v, seq.witness)
-                if isinstance(v, Num) and v.sym is None and isinstance(obj, Ptr) and it != STAR and it[0] in ("v", "perm") and all(i[0] in ("v", "c", "perm") for i in obj.idx):
+                if isinstance(v, Num) and (v.sym is None or sym_has_star(v.sym)) and isinstance(obj, Ptr) and it != STAR and it[0] in ("v", "perm") and all(i[0] in ("v", "c", "perm") for i in obj.idx):
                     # value numbering of list reads: same list, same position, no intervening mutation
                     v = replace(v, sym=("elem", obj.loc + f"#v{self.list_version.get(obj.loc, 0)}", obj.idx, it))
                 return v
@@ -962,19 +1029,57 @@ class ExprMixin:
                         s.assign_from(t)
                     level(i + 1, s)
 
+                if i == 0:
+                    outer_seq.append(seq)
                 self.run_loop(seq, e, st, bind, body)
 
+            outer_seq: List[Seq] = []
             level(0, state)
             if state.bottom:
                 return None
             res = self.list_seq(state, acc)
             state.heap.pop(acc.loc, None)
+            if res.length.lo == 0 and len(e.generators) == 1 and e.generators[0].ifs and outer_seq:
+                res = self._reflexive_filter(e, outer_seq[0], res, state)
             return res
         finally:
             self.stack.pop()
             # drop the comprehension frame's variables
             for k in [k for k in state.vars if k[0] == fr.fid]:
                 del state.vars[k]
+
+
+    def _reflexive_filter(self, e, z: Seq, res: Seq, state: State) -> Seq:
+        """Lemma L-A for a filtering comprehension: when an enclosing loop walks the same sequence and every condition
+        holds with the target bound to that loop's current element, the element itself passes: the result is non-empty."""
+        g = e.generators[0]
+        for lc in reversed(self.loops):
+            ls = lc.seq
+            if ls is None or not ls.length.same(z.length):
+                continue
+            if subst_val(ls.elem, {ls.kvar: ivar("$same")}) != subst_val(z.elem, {z.kvar: ivar("$same")}):
+                continue
+            e_self = subst_val(z.elem, {z.kvar: ivar(lc.token)})
+            saved = (self.events, self.diags, self.obligations, self.raises, self.hooks, self.undecided)
+            self.events, self.diags, self.obligations, self.raises, self.hooks, self.undecided = [], {}, {}, [], {}, []
+            ok = True
+            try:
+                stq = state.copy()
+                self.assign(g.target, e_self, stq, e)
+                for cond in g.ifs:
+                    t, f = self.branch(cond, stq)
+                    if t.bottom or not f.bottom:
+                        ok = False
+                        break
+                    stq = t
+            except Exception:
+                ok = False
+            finally:
+                self.events, self.diags, self.obligations, self.raises, self.hooks, self.undecided = saved
+            if ok:
+                self.event("lemma", e, name="L-A", why="the comprehension's condition is reflexive on the enclosing loop's own element: the filtered sequence contains it")
+                return replace(res, length=Length(res.length.term, 1, res.length.hi))
+        return res
 
 
 def _join_seq(a: Seq, b: Seq) -> Seq:
